@@ -299,7 +299,8 @@ def d5_gather(ctx):
     nb = [n for n in walk_function(fm.node) if isinstance(n, ast.Assign) and loc_name(n.targets[0]) == "neighbors"]
     okr = bool(nb) and any(isinstance(c.ops[0], ast.LtE) and loc_name(c.comparators[0]) == "radius" for c in find(nb[0].value, ast.Compare))
     ctx.check(okr, fm, nb[0] if nb else fm.node, nb[0] if nb else "neighbors", "neighbourhood is distance <= radius", "neighbourhood is not distance <= radius", key="radius")
-    fl = [c for c in find(fm.node, ast.Call) if call_name(c) in ("flatnonzero",)]
+    # np.flatnonzero(m) is normalised to np.where(m)[0] by sa/normalize.py; both list indices in ascending order
+    fl = [c for c in find(fm.node, ast.Call) if call_name(c) in ("flatnonzero", "where", "nonzero") and len(c.args) == 1]
     ctx.check(bool(fl), fm, fm.node, "np.flatnonzero(neighbors[c, :])", "neighbours are listed in ascending channel order", "neighbour order is not ascending", key="ascending")
 
 
